@@ -75,7 +75,7 @@ CLAIMED = {
          "Trusted: specmodel parser and the independent canonical renderer. Should-total compared by value; irregular dash spacing may normalise either way (the statement does not say).",
          "DESIGN.md §4 C09"),
  "C01": ("bounded exhaustive enumeration of documents from the spec grammar and of all single/double rule-violating edits, three-way compared (generator denotation = reference parser = klog)",
-         "Every document of the stated families (1-3 records x value menus, the full formatting product, every time/duration literal in a skeleton, every single and double edit from a 90-operator catalogue at every line) is parsed by the real parser and compared with an independent reference parser written from the specification: accept/reject and the full denotation (dates, should-totals, summaries, entry kinds, times with shifts and notation, durations with sign notation, dash spacing, placeholder length). The space is enumerated completely, not sampled.",
+         "Every document of the stated families (1-3 records x value menus, the full formatting product, every time/duration literal in a skeleton, every single and double edit from a 103-operator catalogue at every line) is parsed by the real parser and compared with an independent reference parser written from the specification: accept/reject and the full denotation (dates, should-totals, summaries, entry kinds, times with shifts and notation, durations with sign notation, dash spacing, placeholder length). The space is enumerated completely, not sampled.",
          "Trusted: specmodel.Parse (cross-checked against the generator's by-construction denotation on every grammar-derived document), don't-care zones listed in DESIGN §3.1, Go's Unicode tables. Bounds: <=3 records, <=3 entries per record, edit pairs on 14 (quick) / 60 (thorough) base documents.",
          "DESIGN.md §4 C01"),
  "C16": ("exhaustive finite-domain sweeps (all time strings, all time pairs, all time+duration sums, all date strings, all duration layouts) against the reference value grammar and integer arithmetic",
